@@ -6,14 +6,14 @@ finite input space, with the calls it makes hooked and recorded as events. The r
 recorded events / results with the reference table. Unlike matching the syntax of a `switch`, this
 is indifferent to how the table is spelled (switch, if-chain, lookup helper, reordered cases, named
 constants, swapped arms)."""
-from .skeleton import Interp, Ptr, U, Budget, Stop
+from .skeleton import Interp, Ptr, U, Budget, Stop, FuncRef, StructVal
 
 
 class Inconclusive(Exception):
     pass
 
 
-def run(P, fn, args, heap0=None, hooks=None, budget=300000, max_forks=16, single=True, forced=None, memory=None, align=None, on_start=None):
+def run(P, fn, args, heap0=None, hooks=None, budget=300000, max_forks=16, single=True, forced=None, memory=None, align=None, on_start=None, globals_=None):
     """Execute fn abstractly. hooks: {callee: f(events, args, interp) -> value}. Returns
     (return value, events, heap) when single=True (exactly one path must exist), else the list of such
     triples, one per explored path (a path forks where a branch depends on unknown data)."""
@@ -23,6 +23,8 @@ def run(P, fn, args, heap0=None, hooks=None, budget=300000, max_forks=16, single
     it.forced = dict(forced or {})
     if align is not None:
         it.align = dict(align)  # numeric address of a buffer modulo its alignment class: {base: residue}
+    if globals_ is not None:
+        it.seeded_globals = dict(globals_)     # {mutable global name: element size}: its members are given in heap0 under base 'g:<name>'
     if on_start is not None:
         it.on_path_start = on_start
     if memory is not None:
